@@ -66,6 +66,7 @@ pub fn run_items(report: &mut Report, tag: &str, items: &[Item], hooks: &Hooks) 
     };
     for (item, res) in items.iter().zip(&results) {
         report.programs += 1;
+        report.evaluations += 1; // the build itself (generation Ok + rustc accepts)
         for f in item.base.features.list() {
             report.feature(f);
         }
